@@ -169,3 +169,31 @@ def outcome(S, paths, val_of):
         else:
             outs.add("?ret")
     return outs
+
+
+def unbox(S, path, v):
+    v = S._deref(v, path)
+    if isinstance(v, Adt) and v.adt == "std::boxed::Box" and v.fields and isinstance(v.fields[0], Adt) and v.fields[0].fields:
+        return S._deref(v.fields[0].fields[0], path)
+    return v
+
+
+def describe(S, path, v, depth=0):
+    """A printable structure of an abstract Value / Cons: ('cons', car, cdr) | (kind, payload text or None)."""
+    v = S._deref(v, path)
+    if depth > 12:
+        return ("...",)
+    if isinstance(v, Adt) and v.adt == "cons::Cons" and v.fields:
+        pair = unbox(S, path, v.fields[0])
+        if isinstance(pair, sim.Tup) and len(pair.fields) == 2:
+            return ("cons", describe(S, path, pair.fields[0], depth + 1), describe(S, path, pair.fields[1], depth + 1))
+        return ("cons?", repr(pair)[:40])
+    if isinstance(v, Adt) and v.adt == V:
+        if v.vname == "Cons" and v.fields:
+            return describe(S, path, v.fields[0], depth + 1)
+        pay = None
+        if v.fields:
+            f0 = unbox(S, path, v.fields[0])
+            pay = f0.b if isinstance(f0, Str) else (f0 if isinstance(f0, int) else (repr(f0)[:30] if f0 is not None else None))
+        return (v.vname or str(v.variant), pay)
+    return ("?", repr(v)[:40])
